@@ -62,6 +62,7 @@ type c09res struct {
 	RetErr      string  `json:"ret_err,omitempty"`
 	LatencyMs   float64 `json:"latency_ms"`
 	ExitMs      float64 `json:"exit_ms"`
+	WallMs      float64 `json:"wall_ms"`
 	TotalOps    int     `json:"total_ops"`
 	TicksBefore []int   `json:"ticks_before"`
 	TicksAfter  []int   `json:"ticks_after"`
@@ -554,7 +555,9 @@ func runC09Worker(args []string) error {
 		if err := json.Unmarshal(sc.Bytes(), &j); err != nil {
 			return err
 		}
+		tj := time.Now()
 		res := c09runJob(j)
+		res.WallMs = float64(time.Since(tj).Microseconds()) / 1000
 		if err := enc.Encode(res); err != nil {
 			return err
 		}
@@ -707,7 +710,7 @@ func c09templates(r *rng, thorough bool) []c09tmpl {
 	kS := 60
 	kC := 70
 	if thorough {
-		kS, kC = 300, 400
+		kS, kC = 300, 300
 	}
 	mainOnly := "[PRoot 0; PFun 1]"
 	// ---- single-threaded, main stream
@@ -1032,7 +1035,16 @@ func runC09(args []string) error {
 	r := newRng(*seed)
 	sm := newSummary("C09")
 	sm.RefMismatches = []refMismatch{} // the driver iterates over it
-	tmpls := c09templates(r, thorough)
+	// thorough: the whole family again for several derived parameter sets (goroutine counts, buffer
+	// sizes, tick values, recursion depth, which half of the construct grid)
+	reps := 1
+	if thorough {
+		reps = 6
+	}
+	var tmpls []c09tmpl
+	for rep := 0; rep < reps; rep++ {
+		tmpls = append(tmpls, c09templates(r.fork(), thorough)...)
+	}
 
 	type meta struct {
 		t  *c09tmpl
@@ -1077,6 +1089,21 @@ func runC09(args []string) error {
 	var cases []string
 	distinct := distinctSet{}
 	maxLat, maxExit := 0.0, 0.0
+	wallBy := map[string]float64{}
+	for i, res := range results {
+		wallBy[metas[i].t.Name] += res.WallMs
+	}
+	{
+		names := sortedKeys(wallBy)
+		sort.Slice(names, func(a, b int) bool { return wallBy[names[a]] > wallBy[names[b]] })
+		var top []string
+		for i, n := range names {
+			if i < 4 {
+				top = append(top, fmt.Sprintf("%s %.1fs", n, wallBy[n]/1000))
+			}
+		}
+		sm.Notes = append(sm.Notes, "worker time by template (top): "+strings.Join(top, ", "))
+	}
 	ids := make([]int, 0, len(results))
 	for i := range results {
 		ids = append(ids, i)
